@@ -804,17 +804,31 @@ fn child_ignore(args: &Args) {
     }
     let max = if rng.bool() { log::LevelFilter::Trace } else { *rng.pick(&LOG_FILTERS) };
     let maxr = logf_rank(max);
-    let use_all = rng.bool();
+    // the ignore list is built up by any mix of the two builder methods (each call ADDS)
+    let via = rng.below(4);
     let mut b = LogTracer::builder();
-    if use_all {
-        b = b.ignore_all(list.iter().cloned());
-    } else {
-        for p in &list {
-            b = b.ignore_crate(p.clone());
+    match via {
+        0 => {
+            for p in &list {
+                b = b.ignore_crate(p.clone());
+            }
+        }
+        1 => b = b.ignore_all(list.iter().cloned()),
+        2 => {
+            let k = list.len() / 2;
+            for p in &list[..k] {
+                b = b.ignore_crate(p.clone());
+            }
+            b = b.ignore_all(list[k..].iter().cloned());
+        }
+        _ => {
+            let k = list.len() / 2;
+            b = b.ignore_all(list[..k].iter().cloned());
+            b = b.ignore_all(list[k..].iter().cloned());
         }
     }
     b.with_max_level(max).init().expect("HARNESS: LogTracer init failed (logger already set?)");
-    let config = json!({"ignore": list, "with_max_level": maxr, "via": if use_all { "ignore_all" } else { "ignore_crate" }});
+    let config = json!({"ignore": list, "with_max_level": maxr, "via": (["ignore_crate per entry", "ignore_all", "ignore_crate for the first half, then ignore_all", "two ignore_all calls"][via as usize])});
     out.count("ignore_configs", 1);
     out.count(&format!("ignore_list_len_{}", list.len()), 1);
     out.set("max_levels", maxr.to_string());
